@@ -77,7 +77,16 @@ func genHeaderValue(r *sim.Rand) string {
 	if r.Chance(1, 8) {
 		b.WriteString(strings.Repeat(" ", 1+r.Intn(3)))
 	}
-	return b.String()
+	s := b.String()
+	if r.Chance(1, 8) && len(s) > 0 {
+		// a line break or control character inside the value (pure ASCII or not)
+		at := r.Intn(len(s))
+		for at > 0 && s[at]&0xc0 == 0x80 {
+			at--
+		}
+		s = s[:at] + sim.Pick(r, []string{"\n", "\r\n", "\r", "\r\nX-Injected: yes", "\n\n", "\t", "\x00", "\x1b"}) + s[at:]
+	}
+	return s
 }
 
 func genLineContent(r *sim.Rand, n int) []byte {
@@ -294,8 +303,8 @@ func lineProblems(region []byte, maxLen int, headerRule bool) []string {
 		}
 		if headerRule {
 			t := bytes.TrimSpace(l)
-			if !bytes.ContainsAny(t, " \t") {
-				continue // a single token without blanks cannot be folded
+			if !bytes.Contains(t, []byte(" ")) {
+				continue // a single token without blanks cannot be folded (a TAB inside a word is not a blank)
 			}
 		}
 		out = append(out, fmt.Sprintf("line-too-long(%d>%d)", len(l), maxLen))
